@@ -320,6 +320,12 @@ HANDMADE = [
                          "body": {"1": {"k": "in", "n": "y", "br": [{"k": "ret", "e": "acc", "c": 0}]},
                                   "2": {"k": "in", "n": "x", "br": [{"k": "in", "n": "y", "br": [{"k": "ret", "e": "acc", "c": 0}]}]}}}},
      "unknown": ["z"], "request": ["a"], "fieldNames": []},
+    # one line reads inputs of TWO other forms, neither loaded before; the second input is usually already in the file
+    {"catalogue": {"a": {"instances": None, "inputs": [], "req": ["1"], "opt": [],
+                         "body": {"1": {"k": "in", "n": "b.x", "br": [{"k": "in", "n": "c.y", "br": [{"k": "ret", "e": "acc", "c": 0}]}]}}},
+                   "b": {"instances": None, "inputs": ["x"], "req": [], "opt": ["1"], "body": {"1": {"k": "ret", "e": "const", "c": 1}}},
+                   "c": {"instances": None, "inputs": ["y"], "req": [], "opt": ["1"], "body": {"1": {"k": "ret", "e": "const", "c": 0}}}},
+     "unknown": ["z"], "request": ["a"], "fieldNames": []},
     # the same form requested twice
     {"catalogue": {"a": {"instances": None, "inputs": ["x"], "req": ["1"], "opt": [],
                          "body": {"1": {"k": "in", "n": "x", "br": [{"k": "ret", "e": "acc", "c": 0}]}}}},
